@@ -27,7 +27,7 @@ Section Faithful.
   (** generic trees as ttlv.Value holds them: enumerations without real tag, no bit masks *)
   Fixpoint tree_shaped (i : item) : bool :=
     match i with
-    | IStruct tag kids => negb (tag =? 0) && forallb tree_shaped kids && forallb (fun k => negb (itag k =? 0)) kids
+    | IStruct tag kids => forallb tree_shaped kids && forallb (fun k => negb (itag k =? 0)) kids
     | IEnum tag r _ => (r =? 0)
     | IMask _ _ _ => false
     | _ => true
@@ -88,7 +88,7 @@ Section Faithful.
       + (* struct *)
         unfold T_INT, T_LONG, T_BIG, T_ENUM, T_BOOL, T_TEXT, T_BYTES, T_DATE, T_INTV. cbn [Z.eqb Pos.eqb].
         change (T_STRUCT =? T_STRUCT) with true. cbv iota.
-        cbn [tree_shaped] in Hsh. apply andb_true_iff in Hsh. destruct Hsh as [Hsh Htags]. apply andb_true_iff in Hsh. destruct Hsh as [_ Hsh].
+        cbn [tree_shaped] in Hsh. apply andb_true_iff in Hsh. destruct Hsh as [Hsh Htags].
         unfold c_struct. rewrite c_expect_hit. cbn [bind]. rewrite c_open_good. cbn [bind].
         cbn [item_size] in Hsz. fold (items_size kids) in Hsz.
         assert (Hdf : dec_fields F f (es, false) = Ok (kids, ([], false))) by (apply IHf; try assumption; lia).
